@@ -1,4 +1,5 @@
 #![allow(dead_code)]
+mod byz;
 mod harness;
 mod histarm;
 mod model;
@@ -41,6 +42,15 @@ fn main() {
                 std::process::exit(2)
             });
             std::process::exit(harness::check(arm.as_ref(), tier, seed));
+        }
+        "fingerprints" => {
+            if args.len() < 5 {
+                usage();
+            }
+            let tier = if args[3] == "thorough" { Tier::Thorough } else { Tier::Quick };
+            let seed: u64 = std::env::var("VERIF_SEED").ok().and_then(|s| s.parse().ok()).unwrap_or(1);
+            let arm = props::arm_for(&args[2]).unwrap_or_else(|| std::process::exit(2));
+            harness::fingerprints(arm.as_ref(), tier, seed, args[4].parse().unwrap_or(100));
         }
         "replay" => {
             if args.len() < 3 {
